@@ -74,7 +74,7 @@ func hex4(s string) string {
 // when the selector is read back.
 func c05HexEscapes(c *core.Check) {
 	p := c.Prog
-	r := c.Rule("R15", "hexadecimal escapes written by the selector serializer are terminated: every constant handed to strings.NewReplacer in css/selector that is a backslash followed by hexadecimal digits ends with one space", 3)
+	r := c.Rule("R15", "hexadecimal escapes written by the selector serializer are terminated: every constant handed to strings.NewReplacer in css/selector that is a backslash followed by hexadecimal digits ends with one space", 1)
 	n := 0
 	var fns []*ssa.Function
 	for fn := range p.AllFuncs { // the package initialiser (package-level variables) is a synthetic function
